@@ -34,6 +34,7 @@ def check(case, ctx):
         ctx.event("tiny-shell-skipped")
         return
     g = B.g
+    HK.classify(case, B, ctx)
     tag = "Sg%d/%s" % (g.no, g.choice)
     if GR.touch_sibling(g.no, g.choice):
         ctx.event("sibling-setting-used-first")
